@@ -3,7 +3,9 @@
 package main
 
 import (
+	"bytes"
 	"context"
+	"errors"
 	"database/sql"
 	"fmt"
 	"io"
@@ -14,6 +16,7 @@ import (
 	"sync"
 	"time"
 
+	"github.com/jdillenkofer/pithos/internal/checksumutils"
 	"github.com/jdillenkofer/pithos/internal/storage"
 	"github.com/jdillenkofer/pithos/internal/storage/database"
 	repositoryfactory "github.com/jdillenkofer/pithos/internal/storage/database/repository"
@@ -33,7 +36,8 @@ import (
 //	wait <scope> <bucket> <key> last=<n|none> <before|after>   it called a wait function; newest entry in scope
 //	flush <n> <Method> <bucket> <key> ok|err   the worker replayed entry n on the inner storage
 //	thru <Method>             the caller's own call reached the inner storage
-//	res …                     the operation's result (s3hist format)
+//	res …                     the operation's result (s3hist format; also `res err BadDigest|ReadError`)
+//	rolledback <n>            the transaction that stored entry n was rolled back (follows the res line)
 //	jam                       a replay failed: the worker retries it every 5 s (case abandoned)
 //	dump                      the table is drained; the following op/res pairs read the INNER storage directly
 //	unexpected <text>
@@ -78,6 +82,7 @@ type c21Case struct {
 	pollDebt map[string]int
 	pollSeen map[string]bool
 	curEntry string // worker goroutine only
+	saved    []string // ULIDs of the entries stored by the operation in progress
 }
 
 // ---------------------------------------------------------------- inner storage double (gates)
@@ -230,6 +235,7 @@ func (r *c21Repo) SaveStorageOutboxEntry(ctx context.Context, tx *sql.Tx, outbox
 		if _, ok := cs.entries[e.Id.String()]; !ok {
 			n := len(cs.entries)
 			cs.entries[e.Id.String()] = n
+			cs.saved = append(cs.saved, e.Id.String())
 			cs.pending++
 			cs.out.Line("queued %d %s %s %s", n, e.Operation, strings.TrimPrefix(e.Bucket.String(), "bkt-"), c21KeyTok(e.Key))
 		}
@@ -482,8 +488,85 @@ func (cs *c21Case) checkCount() {
 		count, err = cs.rawRepo.Count(ctx, tx.SqlTx(), cs.outboxID)
 		return err
 	})
-	if count != cs.pending {
-		cs.unexpected("table holds %d entries, %d expected", count, cs.pending)
+	if count == cs.pending {
+		return
+	}
+	if len(cs.saved) > 0 && count == cs.pending-len(cs.saved) {
+		// the operation's transaction was rolled back: its entries never existed
+		for _, id := range cs.saved {
+			cs.out.Line("rolledback %d", cs.entries[id])
+			delete(cs.entries, id)
+			cs.pending--
+		}
+		return
+	}
+	cs.unexpected("table holds %d entries, %d expected", count, cs.pending)
+}
+
+type c21FailingReader struct{}
+
+func (c21FailingReader) Read([]byte) (int, error) { return 0, errors.New("c21: connection reset by peer (injected)") }
+
+// c21Checksums computes the checksum values the storage layer computes for a body.
+func c21Checksums(body []byte) *checksumutils.ChecksumValues {
+	_, v, err := checksumutils.CalculateChecksumsStreaming(context.Background(), bytes.NewReader(body), func(r io.Reader) error {
+		_, err := io.Copy(io.Discard, r)
+		return err
+	})
+	verifx.Check(err)
+	return v
+}
+
+// putChecked executes `op put … cs=<ok|bad>:<etag|crc32|crc32c|crc64|sha1|sha256>` or `cs=ioerr`:
+// a PutObject that carries a client-supplied checksum (matching, or the well-formed checksum of a
+// different body), or whose body breaks off with a read error. The shared s3hist executor always
+// passes a nil ChecksumInput, so these puts are issued here; lines and results keep its format.
+func (cs *c21Case) putChecked(line string) {
+	c := cs.s3
+	c.out.Line("%s", line)
+	t := strings.Fields(line)
+	a := kv(t)
+	body := unhexTok(t[4])
+	opts := &storage.PutObjectOptions{Tags: decPairs(a["tags"]), Metadata: decMeta(a["md"]), StorageClass: decS(a["cls"]),
+		IfNoneMatchStar: a["inm"] == "1", IfMatchETag: imArg(a["im"])}
+	var reader io.Reader = bytes.NewReader(body)
+	var ci *storage.ChecksumInput
+	if a["cs"] == "ioerr" {
+		reader = io.MultiReader(bytes.NewReader(body[:len(body)/2]), c21FailingReader{})
+	} else {
+		p := strings.SplitN(a["cs"], ":", 2)
+		src := body
+		if p[0] == "bad" {
+			src = append(append([]byte{}, body...), '!')
+		}
+		v := c21Checksums(src)
+		ci = &storage.ChecksumInput{}
+		switch p[1] {
+		case "etag":
+			ci.ETag = v.ETag
+		case "crc32":
+			ci.ChecksumCRC32 = v.ChecksumCRC32
+		case "crc32c":
+			ci.ChecksumCRC32C = v.ChecksumCRC32C
+		case "crc64":
+			ci.ChecksumCRC64NVME = v.ChecksumCRC64NVME
+		case "sha1":
+			ci.ChecksumSHA1 = v.ChecksumSHA1
+		default:
+			ci.ChecksumSHA256 = v.ChecksumSHA256
+		}
+	}
+	res, err := c.st.PutObject(c.ctx, storage.MustNewBucketName("bkt-"+t[2]), storage.MustNewObjectKey(t[3]), decS(a["ct"]), reader, ci, opts)
+	switch {
+	case err == nil:
+		c.noteEtag(t[2], t[3], *res.ETag, int64(len(body)))
+		c.out.Line("res ok vid=%s etag=%s", c.vidOut(res.VersionID), *res.ETag)
+	case errors.Is(err, storage.ErrBadDigest):
+		c.out.Line("res err BadDigest")
+	case a["cs"] == "ioerr":
+		c.out.Line("res err ReadError")
+	default:
+		c.resErr(err)
 	}
 }
 
@@ -507,7 +590,12 @@ func (cs *c21Case) run(line string) {
 		}
 	case "op":
 		cs.pollDebt, cs.pollSeen = map[string]int{}, map[string]bool{}
-		cs.s3.exec(line)
+		cs.saved = nil
+		if t[1] == "put" && kv(t)["cs"] != "" && kv(t)["cs"] != "~" {
+			cs.putChecked(line)
+		} else {
+			cs.s3.exec(line)
+		}
 		cs.checkCount()
 	}
 }
